@@ -209,7 +209,7 @@ def run_oracles(si, sm, viol, cover):
         h = hist[a] if a is not None else None
 
         # ---- bookkeeping of allocations and events --------------------------------------
-        if o[:2] == ["m", "alloc"] and not skipped:
+        if o[0] == "m" and o[1] in ("alloc", "allocw") and not skipped:
             h.alloc[li.out[0]] = o[3]
         for e in li.ev:
             kind, rest = e[0], e[1:]
@@ -505,7 +505,7 @@ def run_oracles(si, sm, viol, cover):
                         was_dead = any(i == x and c in "Ww" for (i, c, _, _) in all_objs(pre))
                         if was_dead and int(post["cp"].split("!")[0]) != 1:
                             viol("C07", None, "reviving dead object %d left the arena reporting phase %s" % (x, post["cp"]), k)
-            if o[1] in ("store", "storew", "rawstore", "rawstorew", "alloc", "resurrect", "resurrectw", "stash",
+            if o[1] in ("store", "storew", "rawstore", "rawstorew", "alloc", "allocw", "resurrect", "resurrectw", "stash",
                         "onceinit", "barb", "barf", "barbw", "barfw"):
                 fin_state["mut"] = True
         if o[0] in ("end", "enderr", "panic"):
